@@ -220,6 +220,40 @@ def differential_case(name):
   return fn
 
 
+RANDOM_OPTION = {'ITML': 'prior', 'ITML_Supervised': 'prior', 'LSML': 'prior', 'LSML_Supervised': 'prior', 'SDML': 'prior', 'SDML_Supervised': 'prior',
+                 'MMC': 'init', 'MMC_Supervised': 'init', 'LMNN': 'init', 'NCA': 'init', 'MLKR': 'init'}
+
+
+def random_option_case(name):
+  """the 'random' prior / init with an integer seed -- including the falsy seed 0 -- gives the same model whatever the state of NumPy's
+  global generator (sampled seeds).  (That fit does not advance the global generator is NOT required: the property does not state it, and
+  SDML's graphical lasso does advance it on the unchanged tree without any effect on the model.)"""
+  def fn(ctx):
+    D, y = _dataset(name)
+    for seed in (0, 1, 42):
+      extra = {RANDOM_OPTION[name]: 'random', 'random_state': seed}
+      if name.startswith('SDML'):
+        extra['balance_param'] = 1e-5
+      if name == 'LSML_Supervised':
+        extra['n_constraints'] = 20
+      models = []
+      untouched = True
+      for g in (5, 77):
+        np.random.seed(g)
+        before = np.random.get_state()[1].copy()
+        pos = np.random.get_state()[2]
+        try:
+          e = _fit(name, D, y, extra)
+        except Exception as ex:   # noqa
+          ctx.problem('random %s could not be fitted: %r' % (RANDOM_OPTION[name], ex))
+          return
+        st = np.random.get_state()
+        untouched = untouched and np.array_equal(before, st[1]) and pos == st[2]
+        models.append(e.components_.copy())
+      ctx.require('random_option_model_depends_on_the_seed_only', ctx.cond(np.array_equal(models[0], models[1])), detail='random_state=%d' % seed)
+  return fn
+
+
 def cases(tier, seed):
   Q, T = ('quick', 'thorough'), ('thorough',)
   out = []
@@ -246,6 +280,10 @@ def cases(tier, seed):
     out.append(case('differential_%s' % nm, differential_case(nm), ['%s.fit and query methods (concrete differential runs)' % nm],
                     'one fixed data set: argument bytes before/after, repeat / clone / refit-after-other-data / perturbed global RNG (sampled, not solver-decided)',
                     concrete_only=True, validate=1, cost=4))
+  for nm in RANDOM_OPTION:
+    out.append(case('random_option_%s' % nm, random_option_case(nm), ['%s.fit with the random prior / init' % nm],
+                    "prior / init = 'random' with random_state in {0, 1, 42}, two states of NumPy's global generator (sampled, not solver-decided)",
+                    concrete_only=True, validate=1, cost=3))
   return out
 
 
